@@ -42,6 +42,12 @@ impl PartialEq for SliceCommitment {
 impl ValidatedShred {
     pub uninterp spec fn spec_payload(&self) -> ShredPayload;
     pub uninterp spec fn spec_commitment(&self) -> SliceCommitment;
+    // the data/coding tag (ShredPayloadType): covered neither by the leader's signature nor by the Merkle proof
+    pub uninterp spec fn spec_is_data(&self) -> bool;
+    #[verifier::external_body]
+    pub fn is_data(&self) -> (r: bool) ensures r == self.spec_is_data() { unimplemented!() }
+    // the tag fits the position under the RegularShredder layout: the first DATA_SHREDS positions are data shreds
+    pub open spec fn tag_fits_position(&self) -> bool { self.spec_is_data() == (self.spec_payload().shred_index.0 < 32) }
     #[verifier::external_body]
     pub fn payload(&self) -> (r: &ShredPayload) ensures *r == self.spec_payload() { unimplemented!() }
     // the leader-signed commitment (slot, slice index, last flag, slice root) of this shred
@@ -49,6 +55,10 @@ impl ValidatedShred {
     pub fn commitment(&self) -> (r: SliceCommitment) ensures r == self.spec_commitment() { unimplemented!() }
 }
 #[verifier::external_body] pub struct RegularShredder { _p: () }
+impl RegularShredder {
+/*@ extract src/shredder.rs :: impl Shredder for RegularShredder/const DATA_OUTPUT_SHREDS
+@*/
+}
 #[verifier::external_body] pub struct Transaction { _p: () }
 #[verifier::external_body] pub struct DoubleMerkleTree { _p: () }
 impl DoubleMerkleTree {
@@ -800,6 +810,23 @@ ensures
                 && final(self).last_slice == old(self).last_slice && final(self).completed == old(self).completed,
         // [C12.cached_commitment_is_the_first_one_seen]
         old(self).commitment_cache@.contains_key(shred.spec_payload().header.slice_index) ==> final(self).commitment_cache == old(self).commitment_cache,
+        // [C12.re_tagged_shred_is_dropped_without_blaming_the_leader C13.re_tagged_shred_is_never_stored C14.re_tagged_shred_is_never_stored]
+        // the data/coding tag is not authenticated: a shred whose tag does not fit its position is not stored (it would make
+        // every later decoding of the slice fail) and the refusal is not one the blockstore turns into a misbehaviour report
+        !shred.tag_fits_position() ==> r is Err
+            && r != Err::<Option<BlockstoreEvent>, AddShredError>(AddShredError::InvalidShred)
+            && final(self).completed == old(self).completed
+            && (forall|k: SliceIndex| #[trigger] final(self).shreds@.contains_key(k) ==> old(self).shreds@.contains_key(k) && final(self).shreds@[k] == old(self).shreds@[k])
+            && (forall|k: SliceIndex| #[trigger] final(self).slices@.contains_key(k) ==> old(self).slices@.contains_key(k) && final(self).slices@[k] == old(self).slices@[k]),
+        // [C12.re_tagged_shred_blames_the_leader_only_with_signed_evidence]
+        // what is still reported for such a shred is equivocation shown by its leader-signed commitment (a second commitment
+        // for the slice, or contradictory last-slice markers), never its tag
+        (!shred.tag_fits_position() && r == Err::<Option<BlockstoreEvent>, AddShredError>(AddShredError::Equivocation)) ==>
+            (old(self).commitment_cache@.contains_key(shred.spec_payload().header.slice_index)
+                && old(self).commitment_cache@[shred.spec_payload().header.slice_index] != shred.spec_commitment())
+            || (old(self).last_slice matches Some(l) && !BlockData::last_consistent(l, shred.spec_payload().header.slice_index, shred.spec_payload().header.is_last))
+            || (old(self).last_slice is None && shred.spec_payload().header.is_last
+                && (exists|k: SliceIndex| old(self).shreds@.contains_key(k) && k.0 > shred.spec_payload().header.slice_index.0)),
         // [C13.contradictory_last_slice_markers_are_equivocation]
         (!(old(self).commitment_cache@.contains_key(shred.spec_payload().header.slice_index)
             && old(self).commitment_cache@[shred.spec_payload().header.slice_index] != shred.spec_commitment())
